@@ -4,6 +4,7 @@ import (
 	"sort"
 	"sync"
 	"testing/synctest"
+	"time"
 )
 
 // Op is one storage operation or callback of the code under test, parked at
@@ -29,6 +30,11 @@ type Sched struct {
 	Choices []int
 	Alts    []int
 	Off     bool // when set, Gate returns at once (un-gated runs)
+	// IdleMax > 0: when nothing is parked and the call has not returned, sleep IdleSleep of (virtual) time up to IdleMax
+	// times in a row before declaring a hang, so that goroutines waiting on a timer or a deadline get to run
+	IdleSleep time.Duration
+	IdleMax   int
+	idle      int
 }
 
 func (s *Sched) Gate(name string, node int) {
@@ -91,8 +97,15 @@ func (s *Sched) Run(done <-chan struct{}, choose func(step int, pend []*Op) int,
 		}
 		pend := s.Pending()
 		if len(pend) == 0 {
+			if s.idle < s.IdleMax {
+				// nothing is parked, but a goroutine may be waiting for (virtual) time: let it pass
+				s.idle++
+				time.Sleep(s.IdleSleep)
+				continue
+			}
 			return true
 		}
+		s.idle = 0
 		step++
 		if before != nil && before(step, pend) {
 			continue
